@@ -315,7 +315,9 @@ fn alphabet_trees_unfiltered(base: &[Value], names: &[&str]) -> Vec<Value> {
 /// Two special strings side by side in one container (one hidden value may then hold both):
 /// every ordered pair of the string alphabet in 5 container shapes.
 pub fn pair_alphabet_trees() -> Vec<Value> {
-    let strs: Vec<Value> = gen::leaf_alphabet().into_iter().filter(|v| v.is_string()).chain(["C:\\", "\\\"", "a\\", "\"", ",", ":", "{", "[\"", "\\u0041"].iter().map(|s| json!(s))).collect();
+    // the pair space is quadratic: only strings with structural characters, escapes or non-ASCII take part
+    let special = |v: &Value| v.as_str().map(|s| s.len() <= 16 && (s.chars().any(|c| ",:\"\\[]{}~ ".contains(c) || !c.is_ascii() || c.is_control()) || s == "7e3" || s.is_empty())).unwrap_or(false);
+    let strs: Vec<Value> = gen::leaf_alphabet().into_iter().filter(special).chain(["C:\\", "\\\"", "a\\", "\"", ",", ":", "{", "[\"", "\\u0041"].iter().map(|s| json!(s))).collect();
     let mut out = vec![];
     for x in &strs {
         for y in &strs {
